@@ -24,7 +24,15 @@ Correspondence (all against the REAL code in $VERIF_REPO, nothing copied):
      shell (dash and bash) on hosts holding python3+python / one of them / a python3 whose -V fails / none; observed: which
      interpreter the shells start and with which argv (must be -c + the bootstrap program, unchanged); cmd / powershell
      command lines are split by spec-side readers; the remote command is compared byte for byte with the model's pycmd
-     (Model/ShQuote.v) and the model's sh_words with shlex.split; half of part C's real-server runs go through this path."""
+     (Model/ShQuote.v) and the model's sh_words with shlex.split; half of part C's real-server runs go through this path.
+  G  completeness of the uploaded program (implementation-only oracles, no model): for every combination of auto_hosts x seed
+     hosts given/absent x auto_nets x latency control the upload written by the REAL ssh.connect is (static) read back and every
+     import of sshuttle code found with `ast` in the uploaded sources and in the assembler -- function-level ones included -- must
+     name an uploaded module (module-level ones: an EARLIER one), and (probe) is assembled by the REAL assembler in a fresh
+     interpreter, the handshake is performed and the really running server is sent each kind of message the client opens a
+     conversation with (CMD_PING, CMD_TCP_CONNECT to a closed port, CMD_DNS_REQ, CMD_UDP_OPEN/DATA/CLOSE, CMD_HOST_REQ with the
+     seed hosts joined as client.py:823 does) each followed by a CMD_PING whose CMD_PONG must come back; it must have announced
+     CMD_ROUTES, still be alive at the end and have printed no import failure."""
 import hashlib
 import importlib.machinery
 import importlib.util
@@ -48,7 +56,9 @@ RULE = ("module tables x option sets x segmentations: real and generated module 
         "at and one byte around every framing boundary, malformed uploads (truncated, bad length line, non-ASCII name, unknown "
         "parent, early blank name, trailing bytes); remote command lines: destination forms x --python (none, name, path with blanks) x "
         "--ssh-cmd forms x delimiter on/off x remote shell (posix/cmd/powershell) x verbosity x assembler length x remote host kinds "
-        "(python3+python, python3 only, python only, python3 -V failing, none) x login shell (dash, bash); a case is non-trivial when at least one module body crosses a piece boundary "
+        "(python3+python, python3 only, python only, python3 -V failing, none) x login shell (dash, bash); completeness of the uploaded program: "
+        "auto_hosts x seed hosts (absent / empty because of -H / one or two names) x auto_nets x latency control, each both read back statically "
+        "(imports vs uploaded modules) and assembled + probed with every message kind the client sends first on a channel; a case is non-trivial when at least one module body crosses a piece boundary "
         "or the stream is malformed; distinct by (table hash, options, cutting)")
 TRUSTED_BASE = [
     "zlib: NOT verified — Section hypothesis `sync_flush_law` (decompressing compress(x)+flush(Z_SYNC_FLUSH) of the k-th chunk on the shared stream yields exactly x); exercised with real zlib in part C",
@@ -59,6 +69,10 @@ TRUSTED_BASE = [
     "a non-ASCII assembler source is the real assembler.py plus comment lines",
     "remote command lines: stand-in ssh / sshpass / interpreter programs (sh scripts in a scratch directory: option parsing and the joining of command words as OpenSSH does it; "
     "the remote login shell and /bin/sh are the real dash and bash); cmd.exe and PowerShell word splitting are small spec-side readers in harness/props/c18.py (double quotes / backtick escapes only)",
+    "completeness probe (part G): a spec-side reader of the upload stream (name line, length line, zlib chunk on one shared stream) and of the multiplexer framing "
+    "('!ccHHH' header; command numbers, HDR_LEN and names are taken from the client's own sshuttle.ssnet), a datagram socket of the harness standing in for the "
+    "name server / datagram peer and a bound, non-listening TCP port as the closed port, all on 127.0.0.1; `ast` for finding import statements "
+    "(imports made through importlib / __import__ / exec of strings are not seen by the static oracle — the probe is the only witness for those)",
     "modelled, not verified: the POSIX shell's quoting rules (XCU 2.2) for the fragment blanks / single quotes / double quotes / backslash (Model/ShQuote.v sh_scan; compared with shlex.split and exercised against dash and bash on every run)",
 ]
 ASSUMPTIONS = [
@@ -67,6 +81,9 @@ ASSUMPTIONS = [
     "module sources are valid Python for the remote interpreter and execute without raising (otherwise the assembler stops at that module)",
     "module names passed to empackage are ASCII, newline-free, non-blank and unchanged by strip(); parents precede children",
     "ssh/sshd and the remote shell deliver the client's bytes unchanged and in order (8-bit clean pipe)",
+    "completeness probe: the remote host can resolve/bind 127.0.0.1, fork, and has the tools list_routes / hostwatch call or tolerates their absence as the shipped code does; "
+    "only the FIRST reaction to each message kind is observed (the CMD_PONG behind it; CMD_TCP_EOF/STOP_SENDING for the refused connection, the request reaching to_nameserver and one "
+    "CMD_DNS_RESPONSE, the datagram leaving the server; the process alive ~0.5 s and three answered pings after CMD_HOST_REQ), not what the host watcher later reports",
     "repr(str) is modelled only for printable ASCII without ' and \\ (covers to_nameserver = '<numeric address>@<port>'); other strings are checked on the implementation only; ints beyond CPython's 4300-digit str limit are out of scope",
 ]
 
@@ -1729,6 +1746,408 @@ def part_client(ctx):
                                      holds=(len(wb) == 2))
 
 
+# ---------------------------------------------------------------------------
+# G  completeness of the uploaded program, for every combination of the session options
+#
+# "The remote end runs the client's own code": byte identity of every chunk that IS sent says nothing about a module that
+# is NOT sent.  Two oracles, both on the implementation alone, evaluated for every combination of
+# auto_hosts x seed hosts given/absent x auto_nets x latency control:
+#   static : every sshuttle module named by an import statement (module level or inside a function) of an uploaded source
+#            -- and of the assembler, which imports the server after its loop -- is itself in the upload (module-level
+#            imports: EARLIER in the upload).  The upload is read back from the bytes the real ssh.connect wrote.
+#   probe  : the server assembled by the real assembler from that upload, in a real interpreter that cannot import
+#            sshuttle.* from disk, answers the handshake and then acts on every kind of message the client sends first on a
+#            channel (client.py: CMD_HOST_REQ :823, CMD_TCP_CONNECT :532, CMD_DNS_REQ :604, CMD_UDP_OPEN :566, CMD_PING) and
+#            announces its routes (CMD_ROUTES, server.py:330) without dying: a CMD_PING sent behind each message is answered
+#            with the matching CMD_PONG, the process is alive afterwards, no traceback on its stderr.
+
+class ProbeFail(Exception):
+    pass
+
+
+def parse_upload(payload, stub_zlib=False):
+    """spec-side reader of ssh.connect's second write: [(module name, source bytes)] in stream order
+    (name line, length line, that many compressed bytes on one shared stream, blank name ends)"""
+    import io
+    import zlib
+    if stub_zlib:
+        zm = types.ModuleType("zlib")
+        exec(STUB_ZLIB, zm.__dict__)
+        z = zm.decompressobj()
+    else:
+        z = zlib.decompressobj()
+    f = io.BytesIO(payload)
+    mods = []
+    while True:
+        name = f.readline().strip()
+        if not name:
+            break
+        n = int(f.readline())
+        mods.append((name.decode("ascii"), z.decompress(f.read(n))))
+    return mods
+
+
+def sshuttle_imports(modname, src):
+    """[(lineno, inside_function, module wanted, name wanted from it or None)] for every import of sshuttle code in src"""
+    import ast
+    tree = ast.parse(src, modname)
+    found = []
+
+    def walk(node, depth):
+        for ch in ast.iter_child_nodes(node):
+            d = depth + 1 if isinstance(ch, (ast.FunctionDef, ast.AsyncFunctionDef, ast.Lambda)) else depth
+            if isinstance(ch, ast.Import):
+                for al in ch.names:
+                    if al.name.split(".")[0] == "sshuttle":
+                        found.append((ch.lineno, depth > 0, al.name, None))
+            elif isinstance(ch, ast.ImportFrom):
+                base = ch.module or ""
+                if ch.level:
+                    # relative to the package the module lives in (sshuttle/__init__ is the package itself)
+                    pkg = modname.split(".")
+                    if modname != "sshuttle":
+                        pkg = pkg[:-1]
+                    pkg = pkg[:max(0, len(pkg) - (ch.level - 1))] or ["?"]
+                    base = ".".join(pkg + ([base] if base else []))
+                if base.split(".")[0] == "sshuttle":
+                    for al in ch.names:
+                        found.append((ch.lineno, depth > 0, base, al.name))
+            walk(ch, d)
+    walk(tree, 0)
+    return found
+
+
+def bound_names(src):
+    """names a module source can bind (assignment targets, defs, classes, import aliases), anywhere in it"""
+    import ast
+    out = set()
+    for n in ast.walk(ast.parse(src)):
+        if isinstance(n, ast.Name) and isinstance(n.ctx, ast.Store):
+            out.add(n.id)
+        elif isinstance(n, (ast.FunctionDef, ast.AsyncFunctionDef, ast.ClassDef)):
+            out.add(n.name)
+        elif isinstance(n, (ast.Import, ast.ImportFrom)):
+            for al in n.names:
+                out.add(al.asname or al.name.split(".")[0])
+    return out
+
+
+def missing_imports(assembler_src, uploaded):
+    """-> [(importing module, lineno, inside_function, missing module name, why)] for one upload"""
+    order = dict((n, i) for i, (n, _) in enumerate(uploaded))
+    srcs = dict(uploaded)
+    miss = []
+    units = [("sshuttle.assembler", assembler_src, len(uploaded))] + [(n, s, order[n]) for n, s in uploaded]
+    for modname, src, pos in units:
+        if modname == "sshuttle.cmdline_options":
+            continue                     # synthesised option text: assignments only
+        try:
+            imps = sshuttle_imports(modname, src)
+        except SyntaxError:
+            continue                     # not this oracle's business (ASSUMPTIONS: sources are valid Python)
+        for lineno, infunc, want, name in imps:
+            parts = want.split(".")
+            need = [".".join(parts[:k]) for k in range(1, len(parts) + 1)]
+            if name is not None and name != "*":
+                sub = want + "." + name
+                if sub in order:
+                    need.append(sub)
+                elif want in srcs and want != "sshuttle.cmdline_options":
+                    try:
+                        ok = name in bound_names(srcs[want])
+                    except SyntaxError:
+                        ok = True
+                    if not ok:
+                        miss.append((modname, lineno, infunc, sub, "neither an uploaded module nor a name bound in %s" % want))
+            for m in need:
+                if m not in order:
+                    miss.append((modname, lineno, infunc, m, "not among the uploaded modules"))
+                elif not infunc and order[m] >= pos and m != modname:
+                    miss.append((modname, lineno, infunc, m, "uploaded only AFTER the module that imports it at module level"))
+    return miss
+
+
+def probe_options(auto_hosts, auto_nets, latency_control, ns):
+    return {"latency_control": latency_control, "latency_buffer_size": 32768, "auto_hosts": auto_hosts,
+            "to_nameserver": ns, "auto_nets": auto_nets}
+
+
+def probe_session(scr, options, seed_hosts, sync=None, timeout=12):
+    """One session with the really assembled real server.  options: the dict handed to the real ssh.connect, except that
+    to_nameserver is replaced by '127.0.0.1@<port of a datagram socket of the harness>'.  seed_hosts: list or None, as
+    client._main gets it (None: the client sends no CMD_HOST_REQ).
+    -> dict(failed=None | (step, message), steps=[...], frames=[...], stderr=..., counts={...})"""
+    import select
+    import signal
+    import struct
+    import sshuttle.ssnet as ssnet
+    expected = sync or b"SSHUTTLE0001"
+    udp = socket.socket(socket.AF_INET, socket.SOCK_DGRAM)
+    udp.bind(("127.0.0.1", 0))
+    closed = socket.socket(socket.AF_INET, socket.SOCK_STREAM)
+    closed.bind(("127.0.0.1", 0))                 # bound, never listening: a connect() to it is refused
+    options = dict(options, to_nameserver="127.0.0.1@%d" % udp.getsockname()[1])
+    argv, writes, packaged = real_connect(options)
+    scr.n += 1
+    home = os.path.join(scr.dir, "home%d" % scr.n)
+    os.makedirs(home)
+    errpath = os.path.join(home, "stderr")
+    env = {"PATH": os.environ.get("PATH", ""), "PYTHONPATH": scr.site, "C18_LOG": os.path.join(home, "log.jsonl"),
+           "PYTHONDONTWRITEBYTECODE": "1", "PYTHONHASHSEED": "0", "LANG": "C.UTF-8", "HOME": home}
+    a, b = socket.socketpair()
+    errf = open(errpath, "wb")
+    p = subprocess.Popen(argv, stdin=b.fileno(), stdout=b.fileno(), stderr=errf, env=env, close_fds=True, cwd=home,
+                         start_new_session=True)
+    b.close()
+    errf.close()
+    a.settimeout(timeout)
+    st = {"buf": b"", "frames": [], "counts": {}, "step": "the upload", "seen": set()}
+    steps = []
+    deadline = time.time() + timeout
+
+    def cnt(k):
+        st["counts"][k] = st["counts"].get(k, 0) + 1
+
+    def fill(until):
+        """wait for more bytes from the server (serving the harness's nameserver / datagram peer meanwhile)"""
+        while True:
+            left = min(until, deadline) - time.time()
+            if left <= 0:
+                return False
+            r, _, _ = select.select([a, udp], [], [], left)
+            if udp in r:
+                data, peer = udp.recvfrom(4096)
+                cnt("datagram_received_from_server")
+                st["seen"].add("datagram:" + ("dns" if data.startswith(b"\x12\x34") else data.decode("latin-1")))
+                if data.startswith(b"\x12\x34"):
+                    udp.sendto(data[:2] + b"\x81\x80" + data[4:], peer)      # a reply to the DNS request
+            if a in r:
+                d = a.recv(65536)
+                if not d:
+                    raise ProbeFail("the server closed the connection")
+                st["buf"] += d
+                return True
+
+    def read_exact(n, until):
+        while len(st["buf"]) < n:
+            if not fill(until):
+                raise ProbeFail("no answer from the server within %.0f s" % timeout)
+        d, st["buf"] = st["buf"][:n], st["buf"][n:]
+        return d
+
+    def frame(until):
+        s1, s2, chan, cmd, dlen = struct.unpack("!ccHHH", read_exact(ssnet.HDR_LEN, until))
+        if (s1, s2) != (b"S", b"S"):
+            raise ProbeFail("the server's output is not a multiplexer frame")
+        data = read_exact(dlen, until)
+        st["frames"].append((chan, ssnet.cmd_to_name.get(cmd, hex(cmd)), len(data)))
+        cnt("frame_" + ssnet.cmd_to_name.get(cmd, hex(cmd)))
+        st["seen"].add((chan, cmd))
+        return chan, cmd, data
+
+    def send(chan, cmd, data):
+        a.sendall(struct.pack("!ccHHH", b"S", b"S", chan, cmd, len(data)) + data)
+
+    def ping(label, wait_for=None, wait_s=0.0):
+        """CMD_PING behind the message(s) of this step; the matching CMD_PONG must come back.  wait_for: a frame kind
+        worth waiting for (at most wait_s) before the ping, so that a server dying a moment later is noticed"""
+        if wait_for is not None:
+            t_end = time.time() + wait_s
+            try:
+                while time.time() < t_end:
+                    if not st["buf"] and not fill(t_end):
+                        break
+                    if frame(time.time() + 2)[1] == wait_for:
+                        break
+            except socket.timeout:
+                pass
+        tag = ("c18-probe-%d-%s" % (len(steps), label)).encode()
+        send(0, ssnet.CMD_PING, tag)
+        while True:
+            chan, cmd, data = frame(deadline)
+            if cmd == ssnet.CMD_PONG and data == tag:
+                break
+        steps.append(label)
+
+    failed = None
+    try:
+        try:
+            a.sendall(writes[0] + writes[1])
+            # the handshake as client._main does it: skip to the second NUL, then the announcement
+            st["step"] = "the handshake"
+            for _ in range(2):
+                while read_exact(1, deadline) != b"\0":
+                    pass
+            got = read_exact(len(expected), deadline)
+            if got != expected:
+                raise ProbeFail("announcement %r instead of %r" % (got, expected))
+            steps.append("handshake")
+            st["step"] = "start-up (the CMD_ROUTES announcement, auto_nets=%r)" % options["auto_nets"]
+            while frame(deadline)[1] != ssnet.CMD_ROUTES:      # (the multiplexer's own first CMD_PING comes before it)
+                pass
+            steps.append("routes")
+            st["step"] = "CMD_PING"
+            ping("ping")
+            st["step"] = "CMD_TCP_CONNECT (to a closed port)"
+            send(1, ssnet.CMD_TCP_CONNECT, b"%d,%s,%d" % (socket.AF_INET, b"127.0.0.1", closed.getsockname()[1]))
+            ping("tcp_connect")
+            st["step"] = "CMD_DNS_REQ"
+            send(2, ssnet.CMD_DNS_REQ, b"\x12\x34\x01\x00\x00\x01\x00\x00\x00\x00\x00\x00\x07example\x03com\x00\x00\x01\x00\x01")
+            ping("dns_req", ssnet.CMD_DNS_RESPONSE, 0.5)
+            st["step"] = "CMD_UDP_OPEN"
+            send(3, ssnet.CMD_UDP_OPEN, b"%d" % socket.AF_INET)
+            send(3, ssnet.CMD_UDP_DATA, b"127.0.0.1,%d,c18-datagram" % udp.getsockname()[1])
+            ping("udp_open")
+            send(3, ssnet.CMD_UDP_CLOSE, b"")
+            if seed_hosts is not None:
+                st["step"] = "CMD_HOST_REQ"
+                # client.py:823
+                send(0, ssnet.CMD_HOST_REQ, str.encode("\n".join(seed_hosts)))
+                ping("host_req")
+                # the host watcher is a child of the server; a watcher that cannot start takes the server down a moment later
+                # (server.py main loop: waitpid at the top of the NEXT turn), i.e. after it has answered one more message
+                ping("host_req_later", ssnet.CMD_HOST_LIST, 0.4)
+                ping("host_req_last")
+            # every message was followed by its CMD_PONG; the server must also have ACTED on each of them
+            def unserved():
+                u = []
+                if not ({(1, ssnet.CMD_TCP_EOF), (1, ssnet.CMD_TCP_STOP_SENDING)} & st["seen"]):
+                    u.append("CMD_TCP_CONNECT to a closed port (neither CMD_TCP_EOF nor CMD_TCP_STOP_SENDING came back on the channel)")
+                if "datagram:dns" not in st["seen"] or (2, ssnet.CMD_DNS_RESPONSE) not in st["seen"]:
+                    u.append("CMD_DNS_REQ (request not forwarded to to_nameserver / no CMD_DNS_RESPONSE)")
+                if "datagram:c18-datagram" not in st["seen"]:
+                    u.append("CMD_UDP_OPEN + CMD_UDP_DATA (datagram not sent on)")
+                return u
+            t_end = time.time() + 1.5
+            while unserved() and time.time() < t_end:
+                if not st["buf"] and not fill(t_end):
+                    break
+                if st["buf"]:
+                    frame(t_end + 1)
+            if unserved():
+                st["step"] = unserved()[0]
+                raise ProbeFail("the server answered the CMD_PING behind it but never acted on the message")
+            st["step"] = "the end of the probe (every message had been answered)"
+            time.sleep(0.05)
+            if p.poll() is not None:
+                raise ProbeFail("the server process ended by itself with exit status %r" % p.returncode)
+        except ProbeFail as e:
+            failed = (st["step"], str(e))
+        except (OSError, socket.timeout) as e:
+            failed = (st["step"], "%s: %s" % (type(e).__name__, e))
+    finally:
+        try:
+            a.close()
+        except OSError:
+            pass
+        try:
+            p.wait(0.3 if failed is None else 2)
+        except subprocess.TimeoutExpired:
+            pass
+        try:
+            os.killpg(p.pid, signal.SIGKILL)
+        except OSError:
+            pass
+        try:
+            p.wait(5)
+        except subprocess.TimeoutExpired:
+            pass
+        udp.close()
+        closed.close()
+    with open(errpath, "rb") as f:
+        err = f.read().decode("utf-8", "replace")
+    log = []
+    if os.path.exists(env["C18_LOG"]):
+        with open(env["C18_LOG"]) as f:
+            log = [json.loads(l) for l in f if l.strip()]
+    shutil.rmtree(home, ignore_errors=True)
+    tb_last = None
+    if "Traceback (most recent call last)" in err:
+        lines = [l for l in err.split("\n") if l.strip()]
+        # the exception line of the LAST traceback (server.py logs through its ' s: ' prefix)
+        for l in reversed(lines):
+            if re.match(r"^( s: )?[A-Za-z_][\w.]*(Error|Exception|Fatal|Exit)\b", l.strip()) or re.match(r"^[A-Za-z_][\w.]*: ", l.strip()):
+                tb_last = l.strip()
+                break
+    if failed is None and tb_last is not None and re.search(r"ModuleNotFoundError|ImportError", err):
+        failed = ("the whole probe (all messages answered)", "an import failed on the remote side")
+    return {"failed": failed, "steps": steps, "frames": st["frames"][:40], "counts": st["counts"], "stderr": err[-1200:],
+            "exception": tb_last, "exit": p.returncode, "uploaded": [n for n, _ in parse_upload(writes[1])],
+            "diskimport": [e["name"] for e in log if e.get("ev") == "diskimport"]}
+
+
+def probe_what(res):
+    step, msg = res["failed"]
+    return "the assembled remote server dies on %s: %s" % (step, res["exception"] or msg) if res["exception"] else \
+        "the assembled remote server fails at %s: %s" % (step, msg)
+
+
+def combo_text(c):
+    return "auto_hosts=%r seed_hosts=%r auto_nets=%r latency_control=%r" % (c["auto_hosts"], c["seed_hosts"], c["auto_nets"],
+                                                                           c["latency_control"])
+
+
+def part_complete(ctx, scr):
+    rng = ctx.rng
+    try:
+        sync = unhx(ctx.run_driver(["SYNC"])[0].split(" ")[1])
+    except Exception:
+        sync = None
+    combos = []
+    for auto_hosts in (False, True):
+        for seeds in (None, True):
+            for auto_nets in (False, True):
+                for lc in (False, True):
+                    sh = None
+                    if seeds:
+                        sh = rng.choice([["localhost"], ["localhost", "127.0.0.1"], ["localhost", "ip6-localhost"]])
+                    elif auto_hosts:
+                        sh = []           # cmdline.py:76-81: -H without --seed-hosts gives an empty list, still requested
+                    combos.append({"auto_hosts": auto_hosts, "seed_hosts": sh, "auto_nets": auto_nets, "latency_control": lc})
+    # ---- static: imports of the uploaded program vs the uploaded modules
+    smiss = {}
+    for c in combos:
+        if c["seed_hosts"]:
+            continue                     # the upload does not depend on the seed hosts
+        options = probe_options(c["auto_hosts"], c["auto_nets"], c["latency_control"], rng.choice([None, "10.0.0.1@53"]))
+        argv, writes, packaged = real_connect(options)
+        uploaded = parse_upload(writes[1])
+        ctx.count("complete_static_option_sets")
+        ctx.case(("complete-static", tuple(opts_canon(options))), nontrivial=True)
+        for m in missing_imports(writes[0], uploaded):
+            smiss.setdefault(m, []).append(options)
+    for (mod, lineno, infunc, name, why), optsets in sorted(smiss.items()):
+        ctx.violation("the client's upload is not the complete server program: %s line %d (%s) imports %s, which is %s — for %d of the %d "
+                      "option sets tried: %s" % (mod, lineno, "inside a function" if infunc else "module level", name, why, len(optsets),
+                                                 sum(1 for x in combos if not x["seed_hosts"]),
+                                                 "; ".join("auto_hosts=%r auto_nets=%r latency_control=%r" %
+                                                           (o["auto_hosts"], o["auto_nets"], o["latency_control"]) for o in optsets)),
+                      {"kind": "imports", "options_json": optsets[0], "importer": mod, "line": lineno, "missing": name,
+                       "failing_option_sets": optsets})
+    # ---- behavioural: the assembled server acts on every kind of message
+    pfail = {}
+    for c in combos:
+        options = probe_options(c["auto_hosts"], c["auto_nets"], c["latency_control"], None)
+        res = probe_session(scr, options, c["seed_hosts"], sync)
+        ctx.count("complete_probe_sessions")
+        for k, v in res["counts"].items():
+            ctx.count("complete_probe_" + k, v)
+        ctx.case(("complete-probe", combo_text(c)), nontrivial=True,
+                 sample={"kind": "probe of the assembled server", "options": combo_text(c), "answered": res["steps"],
+                         "frames": res["frames"][:12]} if c["seed_hosts"] else None)
+        if res["diskimport"]:
+            ctx.count("complete_probe_disk_import_attempts")
+        if res["failed"] is not None:
+            pfail.setdefault(probe_what(res), []).append((c, res))
+    for what, lst in sorted(pfail.items()):
+        c, res = lst[0]
+        ctx.violation("%s — for %d of the %d option combinations tried: %s" % (what, len(lst), len(combos), "; ".join(combo_text(x) for x, _ in lst)),
+                      {"kind": "probe", "combo": c, "answered_before": res["steps"], "uploaded": res["uploaded"],
+                       "server_exit_status": res["exit"], "stderr_tail": res["stderr"][-600:], "frames": res["frames"][:20],
+                       "failing_combinations": [x for x, _ in lst]})
+    ctx.extra["assembled_server_probed_for_option_combinations"] = len(combos)
+
+
 def correspondence(ctx):
     sys.path.insert(0, REPO) if REPO not in sys.path else None
     scr = Scratch()
@@ -1747,6 +2166,7 @@ def correspondence(ctx):
         part(part_client, ctx)
         part(part_malformed, ctx, scr)
         rw = part(part_remote, ctx, scr)
+        part(part_complete, ctx, scr)
         part(part_bootstrap, ctx, scr, rw)
         srv = ctx.run_driver(["SERVER %s" % numhex(0), "SERVER %s" % numhex(32768), "SYNC"])
         if not (srv[0].split("|")[1].strip() == srv[1].split("|")[1].strip() == srv[2].split(" ")[0]):
@@ -1771,6 +2191,33 @@ def replay(ctx, rp):
         print("assembler source: %d bytes, %d characters; first write: %d bytes" % (len(a), len(a.decode("utf-8", "replace")), len(writes[0])))
         check_read_len(ctx, argv, writes, packaged, r["options_json"], srcs, "replay")
         return len(ctx.violations) > before
+    if r.get("kind") == "imports":
+        argv, writes, packaged = real_connect(r["options_json"])
+        uploaded = parse_upload(writes[1])
+        print("options:", r["options_json"])
+        print("uploaded modules:", [n for n, _ in uploaded])
+        miss = missing_imports(writes[0], uploaded)
+        for mod, lineno, infunc, name, why in miss:
+            print("FAILS: %s line %d (%s) imports %s: %s" % (mod, lineno, "inside a function" if infunc else "module level", name, why))
+        return bool(miss)
+    if r.get("kind") == "probe":
+        c = r["combo"]
+        scr = Scratch()
+        try:
+            try:
+                sync = unhx(ctx.run_driver(["SYNC"])[0].split(" ")[1])
+            except Exception:
+                sync = None
+            res = probe_session(scr, probe_options(c["auto_hosts"], c["auto_nets"], c["latency_control"], None), c["seed_hosts"], sync)
+        finally:
+            scr.close()
+        print("options:", combo_text(c))
+        print("uploaded modules:", res["uploaded"])
+        print("answered:", res["steps"], "| server exit status:", res["exit"])
+        if res["failed"] is not None:
+            print("FAILS:", probe_what(res))
+            print("server stderr ends with:", res["stderr"][-500:])
+        return res["failed"] is not None
     if r.get("kind") == "remote" and "case" in r:
         scr = Scratch()
         try:
